@@ -9,7 +9,8 @@ from pbt.common import domain_strategy, make_domain, SEED
 PROPERTY_ID = "C09"
 RULE = ("case = domain (2D/3D, sizes from 1, anisotropic element sizes) + one of {FilterConv with radius (relative/"
         "absolute units), FilterConv with an explicit odd kernel (non-negative normalised, mirror-symmetric, signed, "
-        "asymmetric ramp, off-centre delta; half-width 0..n per axis, a small share up to n+2), DensityFilter "
+        "asymmetric ramp, off-centre delta; half-width 0..n per axis, about 1/6 with half-width n..n+2 on axes with n<=3, "
+        "a fifth of those steered to symmetric-min/constant-max), DensityFilter "
         "(optionally with nonpadding)} + the six boundary modes (symmetric/edge/wrap/constants, schemes all-symmetric, "
         "no-constant, free) + a list of value overrides (domain boxes/masks/points, padded-region boxes) + a field kind "
         "(random, constant, delta, 0/1 plateaus, signed); bulk numbers from default_rng(payload_seed). Oracle: own "
@@ -25,6 +26,9 @@ ASSUMPTIONS = [
     "corners where different constants meet (any axis priority)",
     "override_values: the padding may read either the original or the overridden domain values (undocumented; any-of, "
     "label 'override_ambiguous' when the two differ)",
+    "known finding C09-wide-kernel-placeholder-leak: a failing value check is compared with an explicit model of that "
+    "defect (index-0 placeholders of the max-side constant pad reflected into the min side); only an exact match gets "
+    "bucket C09:conv:value:wide_mixed + sig, everything else stays an unexplained violation",
     "z boundary modes are only passed for 3D domains (documented 'only in 3D'); real float64 fields only",
     "element numbering e = (k*nely + j)*nelx + i (documented by get_elemnumber, verified by C13)",
 ]
